@@ -462,6 +462,8 @@ def chan_send_packet_stub(cx):
     if t == 97:     # MSG_CHANNEL_CLOSE
         cx.require('close-sent-at-most-once', cx.selff('_send_state').z != CLOSED)
         return [Out(sets={'ghost_close_sent': bump(cx, 'ghost_close_sent')}, event=('close_sent', ()))]
+    if t == 96:     # MSG_CHANNEL_EOF
+        return [Out(event=('eof_sent', ()))]
     return [Out(event=('packet', tuple(cx.args)))]
 
 
@@ -518,11 +520,23 @@ flush_send = Spec(
     loops={1: LoopSpec(header='self._send_buf and self._send_window',
                        invariant=lambda c: z3.And(hs_inv(c, new=True),
                                                   c.new('_send_state') == c.at_entry('_send_state'),
-                                                  c.new('ghost_close_sent') == c.at_entry('ghost_close_sent')))},
+                                                  c.new('ghost_close_sent') == c.at_entry('ghost_close_sent'),
+                                                  z3.Length(c.new('_send_buf')) <= z3.Length(c.at_entry('_send_buf'))))},
     requires=lambda c: hs_inv(c),
     modifies=['_send_buf', '_send_buf_len', '_send_window', '_send_state', '_send_paused', '_send_chan',
               'ghost_close_sent'],
     ensures=[('send-state-step', send_step),
+             # EOF / CLOSE wait for buffered DATA only, never for the window: a pending eof/close with an EMPTY buffer
+             # is emitted by every flush (else close() with nothing to send and an exhausted window never sends
+             # CLOSE and wait_closed() hangs)
+             ('pending-eof-or-close-leaves-once-the-buffer-is-empty', lambda c: z3.Implies(
+                 z3.Length(c.new('_send_buf')) == 0,
+                 z3.Not(one_of(c.new('_send_state'), ['eof_pending', 'close_pending'])))),
+             ('eof-packet-exactly-when-eof-pending-becomes-eof', lambda c: z3.And(
+                 z3.BoolVal(len(c.events('eof_sent')) <= 1),
+                 z3.BoolVal(len(c.events('eof_sent')) == 1) == z3.And(
+                     c.old('_send_state') == z3.StringVal('eof_pending'), c.new('_send_state') == z3.StringVal('eof')))),
+             ('buffer-only-shrinks', lambda c: z3.Length(c.new('_send_buf')) <= z3.Length(c.old('_send_buf'))),
              ('close-packet-exactly-once', close_sent_once),
              ('class-inv', lambda c: hs_inv(c, new=True))],
     raises={})
@@ -556,7 +570,12 @@ def close_post(c):
 
 chan_close = Spec(
     PROP, 'channel', 'SSHChannel.close', self_class='SSHChannel', classes=C9_CHAN_CLASSES, stubs=CLOSE_STUBS,
-    requires=lambda c: hs_inv(c), modifies=CLOSE_MODIFIES, ensures=close_post(None), raises={})
+    requires=lambda c: hs_inv(c), modifies=CLOSE_MODIFIES,
+    ensures=close_post(None) + [
+        ('close-with-nothing-buffered-sends-CLOSE-now-whatever-the-window', lambda c: z3.Implies(
+            z3.And(z3.Length(c.old('_send_buf')) == 0, c.old('_send_state') != CLOSE_PENDING),
+            c.new('_send_state') == CLOSED))],
+    raises={})
 
 chan_abort = Spec(
     PROP, 'channel', 'SSHChannel.abort', self_class='SSHChannel', classes=C9_CHAN_CLASSES, stubs=CLOSE_STUBS,
@@ -2927,6 +2946,7 @@ def cq_direct_reply(c):
 cq_report = Spec(
     PROP, 'channel', 'SSHChannel._report_response', self_class='SSHChannel',
     params=dict(result='bool'), classes=CQ_CLASSES,
+    inline={'self.is_closing': ('channel', 'SSHChannel.is_closing')},
     stubs={'self.send_packet': cq_reply_stub,
            'self._session.session_started': may_raise(noop('session_started'), 'Exception'),
            'self.resume_reading': may_raise(noop('resume_reading'), 'ProtocolError', 'Exception'),
